@@ -43,6 +43,8 @@ def build(rng, kind, order):
     prog = []
     edges = {}
     t_mem = types.fresh()
+    if rng.random() < 0.08:
+        t_mem = "signal-dot"     # a cell on the signal the compiler uses internally for a remapped reset
     if kind == "signals":
         same_type = rng.random() < 0.3
         ts = t_mem if same_type and rng.random() < 0.5 else types.fresh()
